@@ -59,6 +59,26 @@ CLAIMS = {
              'check".',
         technique='gate matrix extraction + statement-order dominance + docstring/code agreement + escape analysis (ast)',
         design='4/C17'),
+    'C19': dict(
+        text='Equality of the predicted and the real placement as values is NOT decided. Decided for every path from the '
+             'two prediction entry points: the model family is bound to the model classes (R0); no call resolves into '
+             'the communication layer, publications, or the live starter/stopper/failure handler (R1, call graph in '
+             'the model context); stores of the model through copied fields of the mock process stay within the owned '
+             'copy depth and no mutator of a live class is reachable except rules resolution (R2); the model classes '
+             'override effect methods only, every decision method is the real one (R3).',
+        technique='effect reachability over a context-sensitive call graph + ownership (copy-depth) analysis + sibling agreement (ast)',
+        design='4/C19'),
+    'C04': dict(
+        text='The numeric load accounting over concurrent starts is NOT decided. Decided for every path: one emission '
+             'point of start requests, guarded by process.stopped() and a chosen identifier, identifier written only '
+             'through update_identifier with a tested placement result (R1); provenance class of every candidate list '
+             'handed to a placement whose result reaches a command (R2); RUNNING filter, validity filter in each of the '
+             '6 strategies, and the cap node_loading + expected_load <= 100 with node_loading = current + pending (R3); '
+             'known/enabled/rule filters of possible_identifiers (R4); no-resource path reports FATAL and sends '
+             'nothing (R5); de-duplication by name and identifier (R6); node membership is a set (R7); scope of the '
+             'pending-load map (R8).',
+        technique='who-may-call + def-use provenance of candidate lists + must-pass-through filters + normalised comparison (ast)',
+        design='4/C04'),
 }
 
 PENDING_REASON = 'check not implemented yet in this revision (static rules designed in DESIGN.md section 4)'
